@@ -3,7 +3,9 @@ package main
 // nodediff: one real BaseNodeService ("observer") inside a real ceremony is fed every board
 // message addressed to it through ProcessMessage — plus, in between, structure-aware mutations of
 // genuine messages (altered payload, broken/empty/foreign signatures, renamed senders, foreign
-// participant ids, replays under another event or round, junk) — while the Lean node model is fed
+// participant ids, replays under another event or round, junk; an unsigned payload under the signature
+// bytes of an earlier accepted message of the same sender; forged announcements of reconstructed
+// signatures for the round and for a round id the node holds no round for) — while the Lean node model is fed
 // the same messages together with the oracle answers about their opaque parts (JSON decoding,
 // ed25519 verification, threshold reconstruction), computed here with the real functions.
 // After every message both sides print outcome + canonical node state.
@@ -46,6 +48,7 @@ type nodeStats struct {
 	C08Compared, C08Resets, TwoRoundScenarios, C08InDealsWindow, ReinitProbes, Reinits                                                                                                  int
 	CancelledRounds                                                                                                                                                                     int
 	C08Late, C08StampsMoved, PrefilledResults, JSONVariants, KeylessReinits, ReinitVariants, ForgedOwnName, CollectedHere, C08RealLoop, ProposalsStored, ReorderedReinits, ErrorResults int
+	StaleSignatures, ForgedAnnouncements, ForgedAnnouncementsNoRound, RekeyedRoundBoards, RekeyedRoundCopies                                                                            int
 }
 
 func tsTok(t time.Time) string {
@@ -303,6 +306,8 @@ type nodeRun struct {
 	tier  string
 	// prefillTurn: every other genuine answer is submitted with sender and signature of its messages filled in by somebody else (C15)
 	prefillTurn int
+	// forgedTurn: which of the forged announcements of reconstructed signatures come next (C09)
+	forgedTurn int
 }
 
 func (r *nodeRun) emit(op, ob string) {
@@ -335,6 +340,8 @@ type feedResult struct {
 	outcome string
 	before  string
 	after   string
+	// the signature store kept under the round id the message carried, before and after (raw)
+	storeBefore, storeAfter []byte
 }
 
 // feed hands one message to the observer's ProcessMessage and emits op + observation.
@@ -389,6 +396,10 @@ func (r *nodeRun) feedOp(c *cluster, n *vnode, m storage.Message, kind, opName s
 	before := nodeRender(n)
 	viewsBefore := roundViews(n)
 	boardBefore := len(c.boardMessages())
+	// the signature store kept under the round id the message carries, byte for byte: it exists whether or not the node
+	// holds a round of that id (nodeRender lists the stores of the rounds the node holds)
+	storeKey := "signatures_" + m.DkgRoundID
+	storeBefore, _ := n.ldb.Get(storeKey)
 	// oracle: keys registered in this round that verify (Data, Signature)
 	var valid []string
 	regs := registeredKeys(n, m.DkgRoundID)
@@ -526,16 +537,26 @@ func (r *nodeRun) feedOp(c *cluster, n *vnode, m storage.Message, kind, opName s
 			}
 		}
 	}
-	if outcome == "reject" && before != after {
+	storeAfter, _ := n.ldb.Get(storeKey)
+	if outcome == "reject" && (before != after || !bytes.Equal(storeBefore, storeAfter)) {
 		r.mon(fmt.Sprintf("C18 reject_is_noop: a rejected %s message (%s from %s) changed durable state", kind, m.Event, m.SenderAddr))
 	}
 	if snap != nil {
 		rawRestore(n, snap)
+		if _, held := snap[storeKey]; !held && !bytes.Equal(storeBefore, storeAfter) {
+			// (a store under an id the node holds no round for is not part of the snapshot)
+			if storeBefore == nil {
+				n.ldb.Delete(storeKey)
+			} else {
+				n.ldb.Set(storeKey, storeBefore)
+			}
+		}
 		if back := nodeRender(n); back != before {
 			r.mon("harness: rollback after a trial message did not restore the node state")
 		}
 	}
-	return feedResult{outcome, before, after}
+	// (for the callers, which compare before and after: the state of the node includes that store)
+	return feedResult{outcome, before + " store=" + hx(storeBefore), after + " store=" + hx(storeAfter), storeBefore, storeAfter}
 }
 
 type mutation struct {
@@ -546,6 +567,8 @@ type mutation struct {
 	prop         string
 	// try: applied and rolled back on both sides whatever the outcome (a variant that may be accepted must not derail the ceremony)
 	try bool
+	// detail: said after the report of an acceptance (what else the reader needs to rebuild the input)
+	detail string
 }
 
 // mutate produces structure-aware variants of a genuine message.
@@ -790,7 +813,8 @@ func (r *nodeRun) scenario(outDir string, n, t int, twoRounds bool) {
 		perMsg = 40
 	}
 	consumed := uint64(0)
-	history := map[string][]storage.Message{} // round -> the genuine messages the observer has been handed so far
+	history := map[string][]storage.Message{}    // round -> the genuine messages the observer has been handed so far
+	acceptedOf := map[string][]storage.Message{} // sender -> its genuine signed messages the observer has accepted so far (any round)
 	// observerPoll: what Poll does for the observer, through feed(), with mutations in between
 	observerPoll := func() int {
 		msgs := c.boardMessages()
@@ -862,11 +886,11 @@ func (r *nodeRun) scenario(outDir string, n, t int, twoRounds bool) {
 							if strings.HasPrefix(mu.name, "replay-") {
 								clause = "bound_to_round_and_step"
 							}
-							r.mon(fmt.Sprintf("%s %s: mutated message (%s of a genuine %s from %s) was accepted and changed the node state", mu.prop, clause, mu.name, m.Event, m.SenderAddr))
+							r.mon(fmt.Sprintf("%s %s: mutated message (%s of a genuine %s from %s) was accepted and changed the node state%s", mu.prop, clause, mu.name, m.Event, m.SenderAddr, mu.detail))
 							// C10: the same acceptance, seen from the participant the payload names: its status or data changed
 							// without a message signed with its own registered key
 							if pid, named := participantOf(mu.msg); named && mu.prop == "C09" {
-								r.mon(fmt.Sprintf("C10 applied_implies_own_key: a %s of a genuine %s, naming participant %d and not signed with that participant's registered key, was accepted and changed the node state", mu.name, m.Event, pid))
+								r.mon(fmt.Sprintf("C10 applied_implies_own_key: a %s of a genuine %s, naming participant %d and not signed with that participant's registered key, was accepted and changed the node state%s", mu.name, m.Event, pid, mu.detail))
 							}
 						} else if res.outcome != "ok" && stripFreshRounds(res.before) != stripFreshRounds(res.after) {
 							r.mon(fmt.Sprintf("%s reject_noop: rejected message (%s of %s) changed the node state", mu.prop, mu.name, m.Event))
@@ -887,8 +911,23 @@ func (r *nodeRun) scenario(outDir string, n, t int, twoRounds bool) {
 						apply(mu)
 					}
 				}
+				// C09/C10: a payload the sender never signed - this message's payload altered, or the payload of the error report /
+				// decline of the same step in the same participant's name - under the signature bytes of an EARLIER genuine message
+				// of that sender, one this node has verified and accepted: shown now, while the sender's contribution is awaited
+				for _, mu := range r.staleSignature(m, acceptedOf[m.SenderAddr]) {
+					apply(mu)
+					r.st.StaleSignatures++
+				}
 				gen := r.feed(c, obs, m, "genuine")
 				r.st.Genuine++
+				if gen.outcome == "ok" && len(m.Signature) > 0 && m.Event != "event_sig_proposal_init" && m.Event != "reinit_dkg" {
+					acceptedOf[m.SenderAddr] = append(acceptedOf[m.SenderAddr], m)
+				}
+				// C09: an announcement of reconstructed signatures nobody with a registered key made (unsigned, signed with a fresh
+				// key, signed with another participant's key), for this round and for a round id the node holds no round for
+				if m.Event == string(ctypes.SignatureReconstructed) {
+					r.forgedAnnouncements(c, obs, m)
+				}
 				// C10: a signed message is good for the step it was made for: an OLDER genuine message of this round, shown again
 				// now (a later step, a later batch), is refused or changes nothing
 				if olds := history[m.DkgRoundID]; len(olds) > 0 {
@@ -958,10 +997,10 @@ func (r *nodeRun) scenario(outDir string, n, t int, twoRounds bool) {
 	opsAtStart := r.st.Ops
 	pumpAll := func(maxRounds int) {
 		for i := 0; i < maxRounds; i++ {
-			if r.st.Ops-opsAtStart > 6000 {
+			if r.st.Ops-opsAtStart > 7000 {
 				// something keeps the ceremony busy for ever (e.g. retired operations that come back): enough has been seen
 				if len(r.st.Notes) < 30 {
-					r.st.Notes = append(r.st.Notes, "scenario cut short after 6000 operations")
+					r.st.Notes = append(r.st.Notes, "scenario cut short after 7000 operations")
 				}
 				return
 			}
@@ -1128,6 +1167,154 @@ func mutClause(p string) string {
 	return "unsigned_noop"
 }
 
+// errorTwin: for the event a participant answers a step with, the event it would refuse / report an error in that step with
+var errorTwin = map[string]string{
+	"event_sig_proposal_confirm_by_participant": "event_sig_proposal_decline_by_participant",
+	"event_dkg_commit_confirm_received":         "event_dkg_commit_confirm_canceled_by_error",
+	"event_dkg_deal_confirm_received":           "event_dkg_deal_confirm_canceled_by_error",
+	"event_dkg_response_confirm_received":       "event_dkg_response_confirm_canceled_by_error",
+	"event_dkg_master_key_confirm_received":     "event_dkg_master_key_confirm_canceled_by_error",
+	"event_signing_partial_sign_received":       "event_signing_partial_sign_error_received",
+}
+
+// staleSignature: messages in the name of m's sender that nobody signed. The signature field holds the bytes of the signature
+// of an earlier genuine message of that sender (olds: accepted by this node, so whatever it remembers of a verification it
+// remembers of these); the payload is (a) m's own with its stamp moved by a second (an announcement of signatures: with other
+// signature bytes), (b) the error report / decline of the same step naming the same participant. None verifies under the
+// sender's registered key, so C09 wants them refused without effect, and C10 wants the participant's entry untouched.
+func (r *nodeRun) staleSignature(m storage.Message, olds []storage.Message) []mutation {
+	if m.Event == "event_sig_proposal_init" || m.Event == "reinit_dkg" || len(olds) == 0 {
+		return nil
+	}
+	var old *storage.Message
+	for _, k := range []int{len(olds) - 1, r.rng.Intn(len(olds))} {
+		if !bytes.Equal(olds[k].Signature, m.Signature) && !bytes.Equal(olds[k].Data, m.Data) {
+			old = &olds[k]
+		}
+	}
+	if old == nil {
+		return nil
+	}
+	var out []mutation
+	add := func(what, event string, data []byte) {
+		if bytes.Equal(data, old.Data) {
+			return
+		}
+		x := m
+		x.Event = event
+		x.Data = data
+		x.Signature = append([]byte(nil), old.Signature...)
+		out = append(out, mutation{name: "stale-signature>" + what, msg: x, shouldReject: true, prop: "C09",
+			detail: fmt.Sprintf(" (posted as %s in the name of %s before the genuine message, while that contribution was awaited; its signature field held the %d signature bytes of the sender's earlier genuine %s, which this node had accepted; nobody signed this payload: %s)", event, m.SenderAddr, len(old.Signature), old.Event, truncate(string(data), 160))})
+	}
+	altered := stampRe.ReplaceAllFunc(m.Data, func(b []byte) []byte {
+		t, err := time.Parse(time.RFC3339Nano, string(b[1:len(b)-1]))
+		if err != nil {
+			return b
+		}
+		return []byte(`"` + t.Add(time.Second).Format(time.RFC3339Nano) + `"`)
+	})
+	var sigs []fsmtypes.ReconstructedSignature
+	if m.Event == string(ctypes.SignatureReconstructed) && json.Unmarshal(m.Data, &sigs) == nil && len(sigs) > 0 {
+		sigs[0].Signature = []byte("never reconstructed by anybody")
+		altered, _ = json.Marshal(sigs)
+	}
+	if !bytes.Equal(altered, m.Data) {
+		add("payload-altered", m.Event, altered)
+	}
+	if pid, named := participantOf(m); named {
+		if twin, ok := errorTwin[m.Event]; ok {
+			var bz []byte
+			switch {
+			case strings.HasPrefix(twin, "event_sig_proposal_"):
+				bz, _ = json.Marshal(requests.SignatureProposalParticipantRequest{ParticipantId: pid, CreatedAt: time.Now()})
+			case strings.HasPrefix(twin, "event_dkg_"):
+				bz, _ = json.Marshal(requests.DKGProposalConfirmationErrorRequest{ParticipantId: pid, Error: requests.NewFSMError(fmt.Errorf("never reported by this participant")), CreatedAt: time.Now()})
+			default:
+				bz, _ = json.Marshal(requests.SignatureProposalConfirmationErrorRequest{ParticipantId: pid, Error: requests.NewFSMError(fmt.Errorf("never reported by this participant")), CreatedAt: time.Now()})
+			}
+			add("refusal-or-error-report-of-the-step-naming-the-same-participant", twin, bz)
+		}
+	}
+	return out
+}
+
+// forgedAnnouncements (C09): after the genuine announcement m of reconstructed signatures, announcements in the name of
+// registered participants that none of them signed - no signature, a fresh key's, another participant's - carrying (a) the
+// id of m's round, (b) an id the node holds no round for (nothing is registered for anybody there). Each must be refused and
+// leave the rounds, the operations and every signature store - the one kept under the id the message carries included - as
+// they were. Tried and rolled back; two of the six per genuine announcement (three in the thorough tier), in rotation.
+func (r *nodeRun) forgedAnnouncements(c *cluster, obs *vnode, m storage.Message) {
+	var sigs []fsmtypes.ReconstructedSignature
+	if json.Unmarshal(m.Data, &sigs) != nil || len(sigs) == 0 || len(c.nodes) < 2 {
+		return
+	}
+	for i := range sigs {
+		sigs[i].Signature = []byte("not a threshold signature")
+	}
+	data, _ := json.Marshal(sigs)
+	senderIdx := 0
+	for i, nd := range c.nodes {
+		if nd.name == m.SenderAddr {
+			senderIdx = i
+		}
+	}
+	other := c.nodes[(senderIdx+1)%len(c.nodes)]
+	type variant struct {
+		how string
+		sig []byte
+	}
+	variants := []variant{{"unsigned", nil}, {"signed with a fresh key", ed25519.Sign(keystore.NewKeyPair().Priv, data)},
+		{"signed with the key of " + other.name, ed25519.Sign(other.kp.Priv, data)}}
+	take := 2
+	if r.tier == "thorough" {
+		take = len(variants)
+	}
+	for k := 0; k < take; k++ {
+		turn := r.forgedTurn
+		r.forgedTurn++
+		v := variants[turn%len(variants)]
+		round, where := m.DkgRoundID, "the round it was announced in"
+		if (turn/len(variants))%2 == 0 {
+			round, where = fmt.Sprintf("round-nobody-opened-%d", turn), "a round id the node holds no round for"
+			if _, err := obs.fsmSvc.GetFSMDump(&dto.DkgIdDTO{DkgID: round}); err == nil {
+				continue
+			}
+			r.st.ForgedAnnouncementsNoRound++
+		}
+		x := storage.Message{ID: fmt.Sprintf("forged-announcement-%d", turn), DkgRoundID: round, Event: m.Event, Data: data, Signature: v.sig, SenderAddr: m.SenderAddr}
+		res := r.feedOp(c, obs, x, "mut:forged-announcement", "trymsg")
+		r.st.Mutated++
+		r.st.ForgedAnnouncements++
+		r.st.MutationHist["forged-announcement/"+res.outcome]++
+		if res.outcome == "ok" || res.before != res.after {
+			what := "was accepted"
+			if res.outcome != "ok" {
+				what = "was refused and still left a trace"
+			}
+			if !bytes.Equal(res.storeBefore, res.storeAfter) {
+				var stor map[string]map[string][]fsmtypes.ReconstructedSignature
+				json.Unmarshal(res.storeAfter, &stor)
+				k, sample := 0, ""
+				for batch, mm := range stor {
+					for mid, entries := range mm {
+						for _, e := range entries {
+							if string(e.Signature) == "not a threshold signature" {
+								k++
+								sample = fmt.Sprintf("batch %q message %q in the name of %q", batch, mid, e.Username)
+							}
+						}
+					}
+				}
+				what += fmt.Sprintf(": the signature store kept under that id went from %d to %d bytes and holds %d of the forged entries (%s, signature bytes \"not a threshold signature\")", len(res.storeBefore), len(res.storeAfter), k, sample)
+			} else if res.before != res.after {
+				what += " and changed what the node stores " + firstDiff(res.before, res.after)
+			}
+			r.mon(fmt.Sprintf("C09 unsigned_noop: a %s message in the name of %s, %s, for %s (%.24s) %s", m.Event, m.SenderAddr, v.how, where, round, what))
+		}
+	}
+}
+
 // participantOf: the participant id named inside the payload, if the event's request has one
 func participantOf(m storage.Message) (int, bool) {
 	v, err := ctypes.FSMRequestFromMessage(m)
@@ -1168,6 +1355,7 @@ func runNodeDiff(outDir string, seed int64, tier string) {
 		clusterNames = nil
 	}
 	r.errorResults(outDir)
+	r.rekeyedRounds(outDir)
 	r.ops.Flush()
 	r.obs.Flush()
 	fo.Close()
